@@ -16,9 +16,17 @@ import (
 
 const (
 	repoDir       = "/repo"
-	verifDir      = "/verif"
 	contractsFile = "/repo/zz_contracts_verif.go"
 )
+
+// verifDir holds the baseline and the known findings. GOBV_VERIF_DIR points the self-test tooling (mutation analysis on a
+// frozen snapshot) at a copy; the registered commands never set it.
+var verifDir = func() string {
+	if d := os.Getenv("GOBV_VERIF_DIR"); d != "" {
+		return d
+	}
+	return "/verif"
+}()
 
 func setOfflineEnv() {
 	os.Setenv("GOFLAGS", "-mod=mod")
